@@ -182,6 +182,7 @@ func (s *sessionMetadatasState) DeletePeer(peer uint64) error {
 
 	event := &api.StateBroadcastEvent{SessionMetadatas: []*api.SessionMetadatas{}}
 	for _, session := range sessions {
+		session := session
 		session.LastDeleted = clock()
 		event.SessionMetadatas = append(event.SessionMetadatas, &session)
 		s.set(session)
